@@ -803,6 +803,19 @@ func (pc *pCtx) p2Release(s *pSite) {
 				} else if f := c.StaticCallee(); f != nil && pkgPathOf(f) == "time" && (f.Name() == "NewTimer" || f.Name() == "NewTicker" || f.Name() == "AfterFunc") {
 					kind = "timer"
 					what = f.Name()
+				} else if hf, comp := registeringHelper(c, s); hf != nil {
+					// a helper of the package that subscribes on the operator's behalf and registers what it subscribed with
+					// the composite subscription it is handed (zipInnerSubscription(..., subscriptions)): the teardown
+					// releases that composite
+					base := fmt.Sprintf("P2/%s/%s/subscription:helper %s", s.Name, role, hf.Name())
+					idx[base]++
+					name := base
+					if idx[base] > 1 {
+						name = fmt.Sprintf("%s#%d", base, idx[base])
+					}
+					ok2, why := s.compositeReleased(comp, fn, 0)
+					pc.add(props, name, "every subscription opened by the subscribe function is released by what it returns or registers (or is waited for)", ok2, why, pc.pos(ins.Pos()))
+					continue
 				} else if hf := subscribingHelper(c, s); hf != nil {
 					// a helper of the package that subscribes on the operator's behalf and returns the teardown of what it
 					// subscribed (zipAllInnerSubscriptions): its result is a subscription like any other
@@ -1764,4 +1777,36 @@ func subscribingHelper(c *ssa.CallCommon, s *pSite) *ssa.Function {
 		return nil
 	}
 	return f
+}
+
+// registeringHelper: the call is to a package-level helper of the operator's own package that subscribes observers and
+// has no result, and one of its arguments is a Subscription (the composite it registers them with). Returns the helper
+// and that argument.
+func registeringHelper(c *ssa.CallCommon, s *pSite) (*ssa.Function, ssa.Value) {
+	f := c.StaticCallee()
+	if f == nil {
+		return nil, nil
+	}
+	if o := f.Origin(); o != nil {
+		f = o
+	}
+	if f.Blocks == nil || f.Parent() != nil || f.Signature.Recv() != nil || f.Pkg == nil || s.Subscribe.Pkg == nil || f.Pkg != s.Subscribe.Pkg {
+		return nil, nil
+	}
+	if f.Signature.Results().Len() != 0 {
+		return nil, nil
+	}
+	var comp ssa.Value
+	for _, a := range c.Args {
+		if hasMethod(a.Type(), "AddUnsubscribable") && hasMethod(a.Type(), "Unsubscribe") && !hasMethod(a.Type(), "NextWithContext") {
+			comp = a
+		}
+	}
+	if comp == nil {
+		return nil, nil
+	}
+	if subs, _ := helperSubscribes(f, 0); !subs {
+		return nil, nil
+	}
+	return f, comp
 }
